@@ -41,7 +41,14 @@ def api_item(it, env=None):
     from atsim.potentials import potentialforms as pf
     if 'form' in it:
         return getattr(pf, it['form'])(*it['params'])
-    if 'custom' in it or 'table' in it:
+    if 'py' in it:
+        from . import models
+        return models.py_callables()[it['py']][0]()
+    if 'table' in it:
+        from . import models
+        from atsim.potentials.tableforms import Cubic_Spline_Table_Form
+        return Cubic_Spline_Table_Form(*models.TABLE_DATA[it['table']])
+    if 'custom' in it:
         raise NoAPI()
     m = it['mod']
     if m in ('sum', 'product', 'pow'):
